@@ -245,19 +245,35 @@ fn observe_update(main_toml: PathBuf, force: bool, crash: Option<(usize, Option<
             Ok(Ok(())) => Err("no-crash".into()),
         };
     }
-    let modified = if lock_path.exists() {
+    // the lock table as the resolver walks it: per repository, the locked releases in list order
+    let ordered = |lf: &Lockfile| -> Vec<(String, Vec<String>)> {
+        let mut v: Vec<(String, Vec<String>)> = lf
+            .lock_table
+            .iter()
+            .map(|(k, locks)| {
+                (
+                    format!("{k:?}"),
+                    locks.iter().map(|l| if let LockSource::Repository(r) = &l.source { r.version.to_string() } else { l.name.clone() }).collect(),
+                )
+            })
+            .collect();
+        v.sort();
+        v
+    };
+    let (modified, in_memory) = if lock_path.exists() {
         let mut lf = Lockfile::load(&md).map_err(|e| format!("lockfile load: {e}"))?;
         let m = lf.update(&md, force).map_err(|e| format!("update: {e}"))?;
         if m {
             lf.save(&lock_path).map_err(|e| format!("save: {e}"))?;
         }
-        m
+        (m, ordered(&lf))
     } else {
         let mut lf = Lockfile::new(&md).map_err(|e| format!("update: {e}"))?;
         lf.save(&lock_path).map_err(|e| format!("save: {e}"))?;
-        true
+        (true, ordered(&lf))
     };
     let lf = Lockfile::load(&md).map_err(|e| format!("reload: {e}"))?;
+    let reloaded_same_table = ordered(&lf) == in_memory;
     let (table, names) = table_of(&lf);
     // save -> load round trip: write what was loaded to a side file, load it again
     let mut lf2 = Lockfile::load(&md).map_err(|e| format!("reload: {e}"))?;
@@ -269,7 +285,7 @@ fn observe_update(main_toml: PathBuf, force: bool, crash: Option<(usize, Option<
     // an update with unchanged declarations reports no modification
     let mut lf3 = Lockfile::load(&md).map_err(|e| format!("reload: {e}"))?;
     let second_modified = lf3.update(&md, false).map_err(|e| format!("second update: {e}"))?;
-    Ok(Observed { table, names, modified, second_modified, reload_equal: a == b })
+    Ok(Observed { table, names, modified, second_modified, reload_equal: a == b && reloaded_same_table })
 }
 
 pub struct Outcome {
@@ -424,7 +440,7 @@ pub fn run(sc: &Scenario) -> Outcome {
                             return Outcome { violation: Some(("duplicate-project-name".into(), format!("step {si}: names {:?}", o.names))), counters, harness_error: None };
                         }
                         if !o.reload_equal {
-                            return Outcome { violation: Some(("save-load-roundtrip".into(), format!("step {si}: saving the reloaded lockfile gives different bytes"))), counters, harness_error: None };
+                            return Outcome { violation: Some(("save-load-roundtrip".into(), format!("step {si}: saving and reloading the lockfile does not give the same lock table (bytes of a re-save, or the order in which the resolver walks the locked releases of a repository)"))), counters, harness_error: None };
                         }
                         if o.second_modified {
                             let repos: Vec<usize> = o.table.iter().map(|x| x.0).collect();
